@@ -17,6 +17,7 @@ extern "C" int LLVMFuzzerTestOneInput(const uint8_t *data, size_t size) {
     {
         Inst I(fuzzCfg(W, bufLen, queueLen, heapLen));
         I.cfg.traceValues = false;
+        if ((data[4] & 6) == 6) { I.ifc.error = NULL; I.ifc.control = NULL; I.ifc.reset = NULL; I.ifc.flush = NULL; Classify::get().noCallbacks++; }   // the optional callbacks may be absent
         size_t pos = 0;
         while (pos < stream.size()) {
             lcg = lcg * 1664525u + 1013904223u;
